@@ -4,6 +4,12 @@ Helper lemmas for C20 (circular string heap of utils.c and the error queue on to
 import ScpiVerif.Model.Heap
 import ScpiVerif.Lemmas.Fifo
 
+/- Props/C20.lean opens only `ScpiVerif` and `ScpiVerif.Heap` and writes `Bytes` (which lives in
+`ScpiVerif.Fifo`; Model/Heap.lean opens it locally).  Make the name visible there too. -/
+namespace ScpiVerif.Heap
+export ScpiVerif.Fifo (Bytes)
+end ScpiVerif.Heap
+
 namespace ScpiVerif.Lemmas.Heap
 open ScpiVerif ScpiVerif.Heap
 open ScpiVerif.Fifo (Bytes Fifo)
@@ -767,5 +773,460 @@ theorem G.reanchor {cap hs : Nat} {f : Fifo Entry} {h h' : Heap} {st st' : Nat} 
   rcases hst with h1 | h1
   · exact layout_notexts _ _ _ _ h1
   · rw [h1]
+
+/-! ### push -/
+
+def effLen (info : Option Bytes) (l : Nat) : Nat :=
+  match info with
+  | some s => if l = 0 then Fifo.strnlen s 255 else l
+  | none => l
+
+/-- the strndup call of SCPI_ErrorPushEx -/
+def dup (h : Heap) (info : Option Bytes) (l : Nat) : Heap × Option Nat :=
+  match info with
+  | some s => strndup h s (effLen info l)
+  | none => (h, none)
+
+/-- the text that the push leaves in the heap, if any -/
+def stored (h : Heap) (info : Option Bytes) (l : Nat) : Option Bytes :=
+  match info with
+  | some s => if (dup h info l).2.isSome then some ((cstr s).take (effLen info l)) else none
+  | none => none
+
+theorem push_eq (q : EQH) (c : Int) (info : Option Bytes) (l : Nat) :
+    q.push c info l =
+      if q.fifo.count = q.fifo.size then
+        (⟨(Fifo.add (Fifo.removeLast q.fifo).1 ⟨Fifo.overflowCode, none⟩).1,
+          free (free (dup q.heap info l).1 (dup q.heap info l).2 true)
+            (match (Fifo.removeLast q.fifo).2 with
+              | some e => e.info
+              | none => (dup q.heap info l).2) true⟩, [c, Fifo.overflowCode])
+      else (⟨(Fifo.add q.fifo ⟨c, (dup q.heap info l).2⟩).1, (dup q.heap info l).1⟩, [c]) := by
+  cases info with
+  | none =>
+    by_cases hf : q.fifo.count = q.fifo.size <;>
+      (simp [EQH.push, dup, Fifo.add, Fifo.isFull, hf]; try rfl)
+  | some s =>
+    by_cases hf : q.fifo.count = q.fifo.size <;>
+      (simp [EQH.push, dup, effLen, Fifo.add, Fifo.isFull, hf]; try rfl)
+
+theorem stored_weak (h : Heap) (info : Option Bytes) (l : Nat) :
+    stored h info l = none ∨ stored h info l = Fifo.specText true info l true := by
+  cases info with
+  | none => exact Or.inl rfl
+  | some s =>
+    by_cases hd : (dup h (some s) l).2.isSome = true
+    · right; simp [stored, hd, Fifo.specText, effLen, cstr]
+    · left; simp [stored, hd]
+
+theorem dup_spec {h : Heap} {st : Nat} {ts : List Bytes} (hi : HInv h st ts) (info : Option Bytes) (l : Nat) :
+    (dup h info l = (h, none) ∧ stored h info l = none) ∨
+    ∃ h' t, dup h info l = (h', some ((st + (enc ts).length) % h.size)) ∧ stored h info l = some t ∧
+      h'.size = h.size ∧ HInv h' st (ts ++ [t]) := by
+  cases info with
+  | none => exact Or.inl ⟨rfl, rfl⟩
+  | some s =>
+    have hnone : strndup h s (effLen (some s) l) = (h, none) → 
+        (dup h (some s) l = (h, none) ∧ stored h (some s) l = none) := by
+      intro he
+      have hd : dup h (some s) l = (h, none) := he
+      exact ⟨hd, by simp [stored, hd]⟩
+    by_cases hc : cstr s = []
+    · left
+      apply hnone
+      rcases strndup_cases h s (effLen (some s) l) with h1 | ⟨_, _, h3, _⟩
+      · exact h1
+      · exact absurd hc h3
+    · have hn : 1 ≤ effLen (some s) l := by
+        simp only [effLen, Fifo.strnlen]
+        have : 1 ≤ (cstr s).length := by
+          cases hcs : cstr s with
+          | nil => exact absurd hcs hc
+          | cons a t => simp
+        unfold cstr at this
+        split <;> omega
+      rcases hinv_strndup hi s (effLen (some s) l) hn with h1 | ⟨h', he, _, hsz, hi'⟩
+      · exact Or.inl (hnone h1)
+      · right
+        have hd : dup h (some s) l = (h', some ((st + (enc ts).length) % h.size)) := he
+        exact ⟨h', _, hd, by simp [stored, hd], hsz, hi'⟩
+
+theorem free_none (h : Heap) (rb : Bool) : free h none rb = h := rfl
+
+theorem texts_single_none (c : Int) : texts [(c, none)] = [] := rfl
+theorem texts_single_some (c : Int) (t : Bytes) : texts [(c, some t)] = [t] := rfl
+
+/-- the overflow path after the fresh text has been rolled back: drop the newest entry, free its
+text with rollback, append the overflow marker -/
+theorem overflow_tail {cap hs : Nat} {f : Fifo Entry} {h : Heap} {st : Nat} {g : GQ} (hg : G cap hs f h st g)
+    (hcap : 1 ≤ cap) (hf : f.count = f.size) (ptr : Option Nat) :
+    ∃ st', G cap hs (Fifo.add (Fifo.removeLast f).1 ⟨Fifo.overflowCode, none⟩).1
+      (free h (match (Fifo.removeLast f).2 with | some e => e.info | none => ptr) true) st'
+      (g.dropLast ++ [(Fifo.overflowCode, none)]) := by
+  have hinv := hg.finv
+  have hcnt := hg.count
+  have hne : f.count ≠ 0 := by have := hg.fsz; omega
+  obtain ⟨e, he, hab⟩ := Lemmas.Fifo.removeLast_some f hinv hne
+  have hgne : g ≠ [] := by intro h0; rw [h0] at hcnt; simp at hcnt; omega
+  have hgl := (List.dropLast_concat_getLast hgne).symm
+  generalize g.dropLast = g0 at hgl ⊢
+  generalize g.getLast hgne = a at hgl
+  obtain ⟨c', o'⟩ := a
+  have hlay := hg.lay
+  rw [hgl, layout_append] at hlay
+  have hfin : Fifo.Inv (Fifo.add (Fifo.removeLast f).1 ⟨Fifo.overflowCode, none⟩).1 :=
+    Lemmas.Fifo.inv_add _ _ (Lemmas.Fifo.inv_removeLast _ hinv)
+  have hfsz : (Fifo.add (Fifo.removeLast f).1 ⟨Fifo.overflowCode, none⟩).1.size = cap := by
+    simpa using hg.fsz
+  have habs := Lemmas.Fifo.abs_overflow f (⟨Fifo.overflowCode, none⟩ : Entry) hinv hf
+  rw [he]
+  simp only
+  have hi := hg.hinv
+  rw [hgl, texts_append] at hi
+  cases o' with
+  | none =>
+    simp only [layout] at hlay
+    have h1 : (Fifo.abs f).dropLast = layout hs st g0 := by rw [hlay]; simp
+    have h2 : e = ⟨c', none⟩ := by
+      rw [hlay] at hab; simp at hab; exact hab.symm
+    rw [h2, free_none]
+    refine ⟨st, hfin, hfsz, hg.hsz, ?_, ?_⟩
+    · rw [texts_single_none] at hi
+      rw [texts_append, texts_single_none]; exact hi
+    · rw [habs, h1, layout_append]; rfl
+  | some t =>
+    simp only [layout] at hlay
+    have h1 : (Fifo.abs f).dropLast = layout hs st g0 := by rw [hlay]; simp
+    have h2 : e = ⟨c', some ((st + (enc (texts g0)).length) % hs)⟩ := by
+      rw [hlay] at hab; simp at hab; exact hab.symm
+    rw [h2]
+    simp only
+    rw [texts_single_some] at hi
+    obtain ⟨st', hi', hsz', hst'⟩ := hinv_free_newest hi
+    rw [hg.hsz] at hi' hsz'
+    refine ⟨st', hfin, hfsz, hsz', ?_, ?_⟩
+    · rw [texts_append, texts_single_none, List.append_nil]; exact hi'
+    · rw [habs, h1, layout_append]
+      have : layout hs st' g0 = layout hs st g0 := by
+        rcases hst' with h3 | h3
+        · exact layout_notexts _ _ _ _ h3
+        · rw [h3]
+      rw [this]; rfl
+
+theorem g_push {cap hs : Nat} {q : EQH} {st : Nat} {g : GQ} (hg : G cap hs q.fifo q.heap st g) (hcap : 1 ≤ cap)
+    (c : Int) (info : Option Bytes) (l : Nat) :
+    ∃ st', G cap hs (q.push c info l).1.fifo (q.push c info l).1.heap st'
+        (Fifo.specPush cap g (c, stored q.heap info l)) ∧
+      (q.push c info l).2 = if g.length < cap then [c] else [c, Fifo.overflowCode] := by
+  rw [push_eq]
+  have hcnt := hg.count
+  have hfsz := hg.fsz
+  have hle := hg.finv.2.2.2.2.1
+  by_cases hf : q.fifo.count = q.fifo.size
+  · have hnl : ¬ g.length < cap := by omega
+    simp only [if_pos hf, Fifo.specPush, if_neg hnl, and_true]
+    rcases dup_spec hg.hinv info l with ⟨hd, _⟩ | ⟨h', t, hd, _, hsz, hi'⟩
+    · rw [hd]
+      simp only [free_none]
+      exact overflow_tail hg hcap hf none
+    · rw [hd]
+      simp only
+      obtain ⟨st1, hi1, hsz1, hst1⟩ := hinv_free_newest hi'
+      rw [hsz] at hi1 hsz1
+      have hg1 := G.reanchor hg hi1 (hsz1.trans hg.hsz) hst1
+      exact overflow_tail hg1 hcap hf _
+  · have hnl : g.length < cap := by omega
+    simp only [if_neg hf, Fifo.specPush, if_pos hnl, and_true]
+    have hfin := Lemmas.Fifo.inv_add q.fifo ⟨c, (dup q.heap info l).2⟩ hg.finv
+    have hsz' : (Fifo.add q.fifo ⟨c, (dup q.heap info l).2⟩).1.size = cap := by simpa using hfsz
+    have habs := Lemmas.Fifo.abs_add_notfull q.fifo ⟨c, (dup q.heap info l).2⟩ hg.finv hf
+    rcases dup_spec hg.hinv info l with ⟨hd, hs0⟩ | ⟨h', t, hd, hs0, hsz, hi'⟩
+    · rw [hd] at hfin hsz' habs ⊢
+      rw [hs0]
+      refine ⟨st, hfin, hsz', hg.hsz, ?_, ?_⟩
+      · rw [texts_append, texts_single_none, List.append_nil]; exact hg.hinv
+      · rw [habs, hg.lay, layout_append]; rfl
+    · rw [hd] at hfin hsz' habs ⊢
+      rw [hs0]
+      refine ⟨st, hfin, hsz', hsz.trans hg.hsz, ?_, ?_⟩
+      · rw [texts_append, texts_single_some]; exact hi'
+      · rw [habs, hg.lay, layout_append, hg.hsz]; rfl
+
+/-! ### pop, clear -/
+
+theorem sysErrNext_eq (q : EQH) :
+    q.sysErrNext = (⟨(Fifo.remove q.fifo).1, free q.heap ((Fifo.remove q.fifo).2.getD ⟨0, none⟩).info false⟩,
+      ((Fifo.remove q.fifo).2.getD ⟨0, none⟩).code,
+      match ((Fifo.remove q.fifo).2.getD ⟨0, none⟩).info with | some s => textAt q.heap s | none => none) := rfl
+
+theorem clear_eq (q : EQH) :
+    q.clear = ⟨Fifo.clear (EQH.clearLoop q.fifo.count q.fifo q.heap).1,
+      (EQH.clearLoop q.fifo.count q.fifo q.heap).2⟩ := rfl
+
+theorem g_pop {cap hs : Nat} {f : Fifo Entry} {h : Heap} {st : Nat} {g : GQ} (hg : G cap hs f h st g) :
+    ∃ st', G cap hs (Fifo.remove f).1 (free h ((Fifo.remove f).2.getD ⟨0, none⟩).info false) st' g.tail ∧
+      ((Fifo.remove f).2.getD ⟨0, none⟩).code = (g.head?.getD (0, none)).1 ∧
+      (match ((Fifo.remove f).2.getD ⟨0, none⟩).info with | some s => textAt h s | none => none) =
+        (g.head?.getD (0, none)).2 ∧
+      ((Fifo.remove f).2 = none ↔ g = []) := by
+  have hr := Lemmas.Fifo.abs_remove f hg.finv
+  have hfin := Lemmas.Fifo.inv_remove f hg.finv
+  have hfsz : (Fifo.remove f).1.size = cap := by simpa using hg.fsz
+  rw [hg.lay] at hr
+  obtain ⟨hr1, hr2⟩ := hr
+  cases g with
+  | nil =>
+    simp only [layout, List.head?_nil, List.tail_nil] at hr1 hr2
+    rw [hr1]
+    refine ⟨st, ⟨hfin, hfsz, hg.hsz, hg.hinv, ?_⟩, rfl, rfl, by simp⟩
+    rw [hr2]; rfl
+  | cons a g' =>
+    obtain ⟨c, o⟩ := a
+    cases o with
+    | none =>
+      simp only [layout, List.head?_cons, List.tail_cons] at hr1 hr2
+      rw [hr1]
+      refine ⟨st, ⟨hfin, hfsz, hg.hsz, hg.hinv, hr2⟩, rfl, rfl, by simp⟩
+    | some t =>
+      simp only [layout, List.head?_cons, List.tail_cons] at hr1 hr2
+      have hi : HInv h st (t :: texts g') := hg.hinv
+      obtain ⟨hh, hoff, hfit, hgd⟩ := hinv_holds (ts1 := []) hi
+      have hst : st < h.size := by have := hi.st_lt; omega
+      have hmod : st % hs = st := by rw [← hg.hsz]; exact Nat.mod_eq_of_lt hst
+      simp only [enc, List.length_nil, Nat.add_zero, Nat.mod_eq_of_lt hst] at hh
+      rw [hmod] at hr1
+      rw [hr1]
+      obtain ⟨st', hi', hsz', hst'⟩ := hinv_free_oldest hi
+      refine ⟨st', ⟨hfin, hfsz, hsz'.trans hg.hsz, hi', ?_⟩, rfl,
+        (getParts_of_holds h st t hi.len hst hfit hgd hh).2, by simp⟩
+      rw [hr2]
+      rcases hst' with h1 | h1
+      · exact layout_notexts _ _ _ _ h1
+      · rw [h1, hg.hsz, layout_mod]; rfl
+
+theorem g_clearLoop {cap hs : Nat} (n : Nat) (f : Fifo Entry) (h : Heap) (st : Nat) (g : GQ)
+    (hg : G cap hs f h st g) (hn : g.length = n) :
+    ∃ st', G cap hs (EQH.clearLoop n f h).1 (EQH.clearLoop n f h).2 st' [] := by
+  induction n generalizing f h st g with
+  | zero =>
+    have : g = [] := List.eq_nil_of_length_eq_zero hn
+    subst this
+    exact ⟨st, hg⟩
+  | succ n ih =>
+    obtain ⟨st', hg', _, _, hiff⟩ := g_pop hg
+    unfold EQH.clearLoop
+    cases hr : Fifo.remove f with
+    | mk f' o =>
+      rw [hr] at hg' hiff
+      cases o with
+      | none =>
+        have := hiff.mp rfl
+        subst this
+        simp at hn
+      | some e =>
+        simp only [Option.getD_some] at hg'
+        exact ih f' _ st' g.tail hg' (by simp [hn])
+
+theorem g_clear {cap hs : Nat} {q : EQH} {st : Nat} {g : GQ} (hg : G cap hs q.fifo q.heap st g) :
+    ∃ st', G cap hs q.clear.fifo q.clear.heap st' [] := by
+  rw [clear_eq]
+  obtain ⟨st', hg'⟩ := g_clearLoop q.fifo.count q.fifo q.heap st g hg hg.count.symm
+  refine ⟨st', Lemmas.Fifo.inv_clear _ hg'.finv, by simpa using hg'.fsz, hg'.hsz, hg'.hinv, ?_⟩
+  simp only [Lemmas.Fifo.abs_clear]; rfl
+
+/-! ### the ghost queue against the specification queue -/
+
+/-- same code; the stored text is the specified one or absent -/
+def W (a b : Int × Option Bytes) : Prop := a.1 = b.1 ∧ (a.2 = none ∨ a.2 = b.2)
+
+def Rel : GQ → Fifo.SpecQ → Prop
+  | [], [] => True
+  | a :: g, b :: s => W a b ∧ Rel g s
+  | _, _ => False
+
+theorem rel_length {g : GQ} {s : Fifo.SpecQ} (h : Rel g s) : g.length = s.length := by
+  induction g generalizing s with
+  | nil => cases s with
+    | nil => rfl
+    | cons b s => exact h.elim
+  | cons a g ih => cases s with
+    | nil => exact h.elim
+    | cons b s => simp [ih h.2]
+
+theorem rel_concat {g : GQ} {s : Fifo.SpecQ} {a b : Int × Option Bytes} (h : Rel g s) (hw : W a b) :
+    Rel (g ++ [a]) (s ++ [b]) := by
+  induction g generalizing s with
+  | nil => cases s with
+    | nil => exact ⟨hw, trivial⟩
+    | cons b s => exact h.elim
+  | cons a' g ih => cases s with
+    | nil => exact h.elim
+    | cons b' s => exact ⟨h.1, ih h.2⟩
+
+theorem rel_dropLast {g : GQ} {s : Fifo.SpecQ} (h : Rel g s) : Rel g.dropLast s.dropLast := by
+  induction g generalizing s with
+  | nil => cases s with
+    | nil => exact trivial
+    | cons b s => exact h.elim
+  | cons a g ih => cases s with
+    | nil => exact h.elim
+    | cons b s =>
+      obtain ⟨h1, h2⟩ := h
+      cases g with
+      | nil => cases s with
+        | nil => exact trivial
+        | cons b' s' => exact h2.elim
+      | cons a' g' => cases s with
+        | nil => exact h2.elim
+        | cons b' s' =>
+          rw [List.dropLast_cons_cons, List.dropLast_cons_cons]
+          exact ⟨h1, ih h2⟩
+
+theorem rel_tail {g : GQ} {s : Fifo.SpecQ} (h : Rel g s) : Rel g.tail s.tail := by
+  cases g with
+  | nil => cases s with
+    | nil => exact trivial
+    | cons b s => exact h.elim
+  | cons a g => cases s with
+    | nil => exact h.elim
+    | cons b s => exact h.2
+
+theorem rel_head {g : GQ} {s : Fifo.SpecQ} (h : Rel g s) :
+    W (g.head?.getD (0, none)) (s.head?.getD (0, none)) := by
+  cases g with
+  | nil => cases s with
+    | nil => exact ⟨rfl, Or.inl rfl⟩
+    | cons b s => exact h.elim
+  | cons a g => cases s with
+    | nil => exact h.elim
+    | cons b s => exact h.1
+
+/-! ### simulation -/
+
+def R (cap hs : Nat) (q : EQH) (sq : Fifo.SpecQ) : Prop := ∃ st g, G cap hs q.fifo q.heap st g ∧ Rel g sq
+
+theorem step_sim (cap hs : Nat) (hcap : 1 ≤ cap) (q : EQH) (sq : Fifo.SpecQ) (op : Op) (h : R cap hs q sq) :
+    R cap hs (EQH.step q op).1 (specStep cap sq op).1 ∧ obsOK (EQH.step q op).2 (specStep cap sq op).2 = true := by
+  obtain ⟨st, g, hg, hrel⟩ := h
+  have hlen := rel_length hrel
+  cases op with
+  | push c i l =>
+    obtain ⟨st', hg', hcb⟩ := g_push hg hcap c i l
+    simp only [EQH.step, specStep]
+    refine ⟨⟨st', _, hg', ?_⟩, ?_⟩
+    · unfold Fifo.specPush
+      rw [hlen]
+      split
+      · exact rel_concat hrel ⟨rfl, stored_weak _ _ _⟩
+      · exact rel_concat (rel_dropLast hrel) ⟨rfl, Or.inl rfl⟩
+    · rw [hcb, hlen]
+      simp [obsOK]
+  | sysErr =>
+    obtain ⟨st', hg', hc, ht, _⟩ := g_pop hg
+    simp only [EQH.step, specStep, sysErrNext_eq, Fifo.specPop]
+    refine ⟨⟨st', _, hg', rel_tail hrel⟩, ?_⟩
+    obtain ⟨w1, w2⟩ := rel_head hrel
+    simp only [obsOK, hc, ht, w1]
+    rcases w2 with w2 | w2
+    · simp [w2]
+    · simp [w2]
+  | clear =>
+    obtain ⟨st', hg'⟩ := g_clear hg
+    simp only [EQH.step, specStep]
+    exact ⟨⟨st', [], hg', trivial⟩, by simp [obsOK]⟩
+  | count =>
+    simp only [EQH.step, specStep, EQH.count]
+    refine ⟨⟨st, g, hg, hrel⟩, ?_⟩
+    rw [hg.count, hlen]
+    simp [obsOK]
+
+theorem run_nil {σ : Type} (step : σ → Op → σ × Obs) (s : σ) : run step s [] = (s, []) := rfl
+theorem run_cons {σ : Type} (step : σ → Op → σ × Obs) (s : σ) (op : Op) (ops : List Op) :
+    run step s (op :: ops) =
+      ((run step (step s op).1 ops).1, (step s op).2 :: (run step (step s op).1 ops).2) := rfl
+
+theorem run_sim (cap hs : Nat) (hcap : 1 ≤ cap) (ops : List Op) (q : EQH) (sq : Fifo.SpecQ) (h : R cap hs q sq) :
+    (run EQH.step q ops).2.length = (run (specStep cap) sq ops).2.length ∧
+    (∀ p ∈ (run EQH.step q ops).2.zip (run (specStep cap) sq ops).2, obsOK p.1 p.2 = true) ∧
+    R cap hs (run EQH.step q ops).1 (run (specStep cap) sq ops).1 := by
+  induction ops generalizing q sq with
+  | nil => exact ⟨rfl, by simp [run_nil], h⟩
+  | cons op ops ih =>
+    obtain ⟨h1, h2⟩ := step_sim cap hs hcap q sq op h
+    obtain ⟨i1, i2, i3⟩ := ih _ _ h1
+    simp only [run_cons]
+    refine ⟨by simp [i1], ?_, i3⟩
+    intro p hp
+    simp only [List.zip_cons_cons, List.mem_cons] at hp
+    rcases hp with rfl | hp
+    · exact h2
+    · exact i2 p hp
+
+theorem R_init (cap hs : Nat) (hcap : 1 ≤ cap) : R cap hs (EQH.init cap hs) [] :=
+  ⟨0, [], ⟨Lemmas.Fifo.inv_init cap _ hcap, rfl, rfl, hinv_init hs, by
+    simp only [EQH.init, Lemmas.Fifo.abs_init]; rfl⟩, trivial⟩
+
+theorem text_intact_or_absent (cap heapSize : Nat) (hcap : 1 ≤ cap) (ops : List Op)
+    (_hwf : ∀ op ∈ ops, op.wf = true) :
+    let impl := run EQH.step (EQH.init cap heapSize) ops
+    let spec := run (specStep cap) [] ops
+    impl.2.length = spec.2.length ∧
+    (∀ p ∈ impl.2.zip spec.2, obsOK p.1 p.2 = true) ∧
+    impl.1.heap.oob = false ∧ impl.1.heap.data.length = heapSize ∧ impl.1.heap.size = heapSize := by
+  obtain ⟨h1, h2, st, g, hg, _⟩ := run_sim cap heapSize hcap ops _ _ (R_init cap heapSize hcap)
+  exact ⟨h1, h2, hg.hinv.oob, by rw [hg.hinv.len, hg.hsz], hg.hsz⟩
+
+theorem empty_means_reusable (cap heapSize : Nat) (hcap : 1 ≤ cap) (ops : List Op)
+    (_hwf : ∀ op ∈ ops, op.wf = true) :
+    let q := (run EQH.step (EQH.init cap heapSize) ops).1
+    q.fifo.count = 0 → q.heap.count = heapSize ∧ q.heap.wr = 0 ∧ q.heap.data = List.replicate heapSize 0 := by
+  obtain ⟨_, _, st, g, hg, _⟩ := run_sim cap heapSize hcap ops _ _ (R_init cap heapSize hcap)
+  intro q hc
+  have hg0 : g = [] := List.eq_nil_of_length_eq_zero (by rw [← hg.count]; exact hc)
+  subst hg0
+  have hi : HInv q.heap st [] := hg.hinv
+  have hsz : q.heap.size = heapSize := hg.hsz
+  have hcnt : q.heap.count = q.heap.size := by simpa [enc] using hi.cnt
+  refine ⟨by rw [hcnt, hsz], hi.empty hcnt, ?_⟩
+  apply List.ext_getElem?
+  intro j
+  rw [List.getElem?_replicate]
+  by_cases hj : j < heapSize
+  · rw [if_pos hj]
+    have hst : st < q.heap.size := by have := hi.st_lt; omega
+    apply zeros_anchor q.heap st hst _ j (by omega)
+    intro i hi'
+    rw [hi.dat i hi']
+    simp [enc, hcnt, hi']
+  · rw [if_neg hj, List.getElem?_eq_none_iff, hi.len]; omega
+
+theorem fits_means_stored (cap heapSize : Nat) (hcap : 1 ≤ cap) (c : Int) (s : Bytes)
+    (hs : s.all (· ≠ 0) = true) (hne : s ≠ []) (hfit : s.length < heapSize) (h255 : s.length ≤ 255) :
+    (run EQH.step (EQH.init cap heapSize) [.push c (some s) 0, .sysErr]).2 =
+      [.pushed [c], .popped c (some s)] := by
+  have hnz : ∀ b ∈ s, b ≠ 0 := by simpa using hs
+  have hcs : cstr s = s := takeWhile_all s hnz
+  have hel : effLen (some s) 0 = s.length := by
+    have : Fifo.strnlen s 255 = min (cstr s).length 255 := rfl
+    simp only [effLen, if_true, this, hcs]; omega
+  obtain ⟨st0, g0, hG0, _⟩ := R_init cap heapSize hcap
+  have hg0 : g0 = [] := List.eq_nil_of_length_eq_zero (by rw [← hG0.count]; rfl)
+  subst hg0
+  obtain ⟨st', hg', hcb⟩ := g_push hG0 hcap c (some s) 0
+  have hst : stored (EQH.init cap heapSize).heap (some s) 0 = some s := by
+    obtain ⟨h', he, _⟩ := strndup_ok (Heap.init heapSize) s (effLen (some s) 0)
+      (by simp [Heap.init]) (by simp only [Heap.init]; omega)
+      (by simp only [Heap.init]; rw [List.getD_eq_getElem?_getD, List.getElem?_replicate]; split <;> rfl)
+      (by rw [hcs]; exact hne) (by rw [hcs, hel]; simp [Heap.init]; omega) (by simp [Heap.init])
+    have hd : dup (EQH.init cap heapSize).heap (some s) 0 = (h', some 0) := he
+    simp [stored, hd, hcs, hel]
+  rw [hst] at hg'
+  have hsp : Fifo.specPush cap [] (c, some s) = [(c, some s)] := by
+    simp [Fifo.specPush]; omega
+  rw [hsp] at hg'
+  obtain ⟨_, _, hc, ht, _⟩ := g_pop hg'
+  simp only [run_cons, run_nil, EQH.step, sysErrNext_eq]
+  rw [hcb, hc, ht]
+  simp; omega
 
 end ScpiVerif.Lemmas.Heap
